@@ -362,6 +362,74 @@ theorem verifySolution_iff (sha : Bytes → Bytes) (hsha : ∀ s, ∀ b ∈ sha 
     have := (verifyParsed_iff sha hsha h required expiresNs subject now1 now2 hE).mpr ⟨hd, e, he, rest⟩
     simp [verifySolution, h1, h2, h3, h4, hp, this]
 
+/-! ## the proof names the expected subject (no hypotheses about SHA-256, the clock or the window) -/
+
+/-- `Hashcash.Verify(subject)` succeeds only on a stamp whose own subject field IS `subject` — for every stamp subject,
+including the default that `New` writes for an empty one and anything that looks like a pattern. -/
+theorem hcVerify_names_subject (sha : Bytes → Bytes) (h : Hashcash) (subject : Bytes) (now : Int)
+    (hok : hcVerify sha h subject now = .ok ()) : h.subject = subject := by
+  by_cases hs : subject = h.subject
+  · exact hs.symm
+  · exfalso
+    unfold hcVerify at hok
+    by_cases ha : h.alg = algSHA256
+    · by_cases hx : expired h.expiresAt now = true
+      · simp [ha, hx] at hok
+      · simp [ha, hx, hs] at hok
+    · simp [ha] at hok
+
+/-- a stamp that `Verify` accepts for one subject is rejected for every other subject (at any instants) -/
+theorem hcVerify_subject_unique (sha : Bytes → Bytes) (h : Hashcash) (s1 s2 : Bytes) (n1 n2 : Int)
+    (h1 : hcVerify sha h s1 n1 = .ok ()) (h2 : hcVerify sha h s2 n2 = .ok ()) : s1 = s2 :=
+  (hcVerify_names_subject sha h s1 n1 h1).symm.trans (hcVerify_names_subject sha h s2 n2 h2)
+
+theorem verifyParsed_names_subject (sha : Bytes → Bytes) (h : Hashcash) (required expiresNs : Nat) (subject : Bytes)
+    (now1 now2 : Int) (hok : verifyParsed sha h required expiresNs subject now1 now2 = .ok) : h.subject = subject := by
+  unfold verifyParsed at hok
+  by_cases hd : h.difficulty = required
+  case neg => simp [hd] at hok
+  cases he : h.expiresAt with
+  | none => simp [hd, he] at hok
+  | some e =>
+    cases hv : hcVerify sha h subject now2 with
+    | ok u => cases u; exact hcVerify_names_subject sha h subject now2 hv
+    | error err =>
+      simp only [hd, he, hv, ne_eq, not_true_eq_false, if_false] at hok
+      split at hok <;> cases hok
+
+/-- an accepted proof carries a stamp that names the expected subject -/
+theorem accepted_names_subject (sha : Bytes → Bytes) (pubLen sigLen : Nat) (solution : Bytes) (sigOK : Bool)
+    (required expiresNs : Nat) (subject : Bytes) (now1 now2 : Int)
+    (hok : verifySolution sha pubLen sigLen solution sigOK required expiresNs subject now1 now2 = .ok) :
+    ∃ h, parse solution = .ok h ∧ h.subject = subject := by
+  unfold verifySolution at hok
+  by_cases h1 : pubLen = 32
+  case neg => simp [h1] at hok
+  by_cases h2 : sigLen = 64
+  case neg => simp [h1, h2] at hok
+  by_cases h3 : solution = []
+  · simp [h1, h2, h3] at hok
+  by_cases h4 : sigOK = true
+  case neg => simp [h1, h2, h3, h4] at hok
+  cases hp : parse solution with
+  | error err => simp [h1, h2, h3, h4, hp] at hok
+  | ok h =>
+    simp only [h1, h2, h3, h4, hp, ne_eq, not_true_eq_false, if_false, Bool.not_true] at hok
+    exact ⟨h, rfl, verifyParsed_names_subject sha h required expiresNs subject now1 now2 (by simpa using hok)⟩
+
+/-- one piece of work serves one subject: the same solution string — whoever signs it, whichever key presents it, under
+whatever difficulty / window parameters and at whatever instants — is never accepted for two different expected subjects. -/
+theorem proof_serves_one_subject (sha : Bytes → Bytes) (solution : Bytes)
+    (pubLen sigLen : Nat) (sigOK : Bool) (required expiresNs : Nat) (s1 : Bytes) (a1 a2 : Int)
+    (pubLen' sigLen' : Nat) (sigOK' : Bool) (required' expiresNs' : Nat) (s2 : Bytes) (b1 b2 : Int)
+    (h1 : verifySolution sha pubLen sigLen solution sigOK required expiresNs s1 a1 a2 = .ok)
+    (h2 : verifySolution sha pubLen' sigLen' solution sigOK' required' expiresNs' s2 b1 b2 = .ok) : s1 = s2 := by
+  obtain ⟨h, hp, hs⟩ := accepted_names_subject sha pubLen sigLen solution sigOK required expiresNs s1 a1 a2 h1
+  obtain ⟨h', hp', hs'⟩ := accepted_names_subject sha pubLen' sigLen' solution sigOK' required' expiresNs' s2 b1 b2 h2
+  rw [hp] at hp'
+  cases hp'
+  exact hs.symm.trans hs'
+
 /-! ## Solve -/
 
 theorem solveLoop_sound (sha b64 : Bytes → Bytes) (pre : Bytes) (bits : Nat) (fuel c : Nat) (sol : Bytes)
@@ -559,5 +627,14 @@ example : (match solve shaD b64A stampValid 26 0 1 with | .ok h => decide (h = s
 example : WF stampStale := ⟨by decide, by intro e h; cases h; decide, by decide, by decide, by decide, by decide⟩
 example : expired stampStale.expiresAt 95000000001 = false := by decide
 example : verifySolution shaD 32 64 stamp true 10 10000000000 [115] 95000000000 95000000001 = .ok := by decide +kernel
+
+-- subject: the stamp "H:10:100:*:n:SHA-256:A" (the subject `New` writes for an empty one) has the bits under shaF, is accepted
+-- for the expected subject "*" and for no other; `stamp` (subject "s") is accepted for "s" only
+def stampStar : Bytes := [72,58,49,48,58,49,48,48,58,42,58,110,58,83,72,65,45,50,53,54,58,65]
+example : verifySolution shaF 32 64 stampStar true 10 10000000000 [42] 95000000000 95000000001 = .ok := by decide
+example : verifySolution shaF 32 64 stampStar true 10 10000000000 [115] 95000000000 95000000001 = .verify .subject := by decide
+example : verifySolution shaF 32 64 stamp true 10 10000000000 [42] 95000000000 95000000001 = .verify .subject := by decide
+example : isOk (hcVerify shaF { stamp0 with subject := [42], solution := [65] } [42] 0) = true := by decide
+example : isOk (hcVerify shaF { stamp0 with subject := [42], solution := [65] } [115] 0) = false := by decide
 
 end Specter.C31
